@@ -26,6 +26,9 @@ const (
 	fPanic
 	fShortRead
 	fPanicInRead
+	fPanicInClose // the source reads fine, its Close panics
+	fCloseErr     // the source reads fine, its Close returns an error (not a fault: the error is ignored)
+	nFaultKinds
 )
 
 type c07Case struct {
@@ -42,6 +45,19 @@ type faultReader struct {
 	r     io.Reader
 	left  int
 	panic bool
+}
+
+// faultCloser is a source that reads to the end and then misbehaves in Close.
+type faultCloser struct {
+	io.Reader
+	panics bool
+}
+
+func (f faultCloser) Close() error {
+	if f.panics {
+		panic(panicVal{"close"})
+	}
+	return errors.New("injected close error")
 }
 
 func (f *faultReader) Read(p []byte) (int, error) {
@@ -108,9 +124,9 @@ func c07Check(c c07Case, r *ev.Rec) error {
 	walk(c.N - 1)
 	anyFault, onlyPanics, faultOnImport := false, true, false
 	for i, f := range c.Faults {
-		if f != fOK && reach[i] {
+		if f != fOK && f != fCloseErr && reach[i] {
 			anyFault = true
-			if f != fPanic && f != fPanicInRead {
+			if f != fPanic && f != fPanicInRead && f != fPanicInClose {
 				onlyPanics = false
 			}
 			if i != c.N-1 {
@@ -140,6 +156,10 @@ func c07Check(c c07Case, r *ev.Rec) error {
 			return protocompile.SearchResult{Source: &faultReader{r: strings.NewReader(files[path]), left: len(files[path]) / 2}}, nil
 		case fPanicInRead:
 			return protocompile.SearchResult{Source: &faultReader{r: strings.NewReader(files[path]), left: len(files[path]) / 2, panic: true}}, nil
+		case fPanicInClose:
+			return protocompile.SearchResult{Source: faultCloser{Reader: strings.NewReader(files[path]), panics: true}}, nil
+		case fCloseErr:
+			return protocompile.SearchResult{Source: faultCloser{Reader: strings.NewReader(files[path])}}, nil
 		}
 		return protocompile.SearchResult{Source: strings.NewReader(files[path])}, nil
 	})
@@ -226,20 +246,20 @@ func TestC07_Enum(t *testing.T) {
 		maxN = 4
 	}
 	ev.RunEnum(t, ev.Spec[c07Case]{ID: "C07", Name: "Enum",
-		Rule:  fmt.Sprintf("ALL fault plans over workspaces of 1-%d files in three import shapes (chain, fan-in, every-earlier-file): each file's resolver call is one of ok / error / panic(value) / reader failing mid-file / reader panicking mid-file (5^n plans) x parallelism {1,2,8} x cancellation during the k-th resolver call for every k in 0..n; oracle: the call returns within the watchdog, no panic escapes, a reachable fault => non-nil error, only-panic plans => errors.As(PanicError) carrying the injected value, fault-free uncancelled plans succeed, a cancelled fault-free call fails only with context.Canceled, and the goroutine count returns to its baseline within 5 s; non-trivial = a fault on an imported (not requested) file, or a cancellation in a multi-file workspace; distinct by plan", maxN),
+		Rule:  fmt.Sprintf("ALL fault plans over workspaces of 1-%d files in three import shapes (chain, fan-in, every-earlier-file): each file's resolver call is one of ok / error / panic(value) / reader failing mid-file / reader panicking mid-file / source whose Close panics / source whose Close returns an error (7^n plans; the last is not a fault) x parallelism {1,2,8} x cancellation during the k-th resolver call for every k in 0..n; oracle: the call returns within the watchdog, no panic escapes, a reachable fault => non-nil error, only-panic plans => errors.As(PanicError) carrying the injected value, fault-free uncancelled plans succeed, a cancelled fault-free call fails only with context.Canceled, and the goroutine count returns to its baseline within 5 s; non-trivial = a fault on an imported (not requested) file, or a cancellation in a multi-file workspace; distinct by plan", maxN),
 		Check: c07Check}, true, func(yield func(c07Case) bool) {
 		for n := 1; n <= maxN; n++ {
 			for _, shape := range c07Shapes(n) {
 				total := 1
 				for i := 0; i < n; i++ {
-					total *= 5
+					total *= nFaultKinds
 				}
 				for plan := 0; plan < total; plan++ {
 					faults := make([]int, n)
 					p := plan
 					for i := 0; i < n; i++ {
-						faults[i] = p % 5
-						p /= 5
+						faults[i] = p % nFaultKinds
+						p /= nFaultKinds
 					}
 					for _, par := range []int{1, 2, 8} {
 						for k := 0; k <= n; k++ {
@@ -269,7 +289,7 @@ func TestC07_Random(t *testing.T) {
 			}
 			for i := range c.Faults {
 				if gen.Pct(t, 25, "fault") {
-					c.Faults[i] = 1 + gen.Uniform(t, 4, "kind")
+					c.Faults[i] = 1 + gen.Uniform(t, nFaultKinds-1, "kind")
 				}
 			}
 			if gen.Pct(t, 40, "cancel") {
